@@ -256,3 +256,103 @@ def c10_format(rec, obs):
         except Exception:  # noqa: BLE001
             return True
     return False
+
+
+def de_method_accepts(method, account):
+    """real library: does algorithms['DE:<method>'].validate([account], '') accept (true value) / reject (false or InvalidBBANChecksum)"""
+    from schwifty.checksum import algorithms
+    from schwifty.exceptions import InvalidBBANChecksum
+
+    try:
+        return bool(algorithms[f"DE:{method}"].validate([account], ""))
+    except InvalidBBANChecksum:
+        return False
+
+
+def c07_method(rec, obs):
+    from spec import bundesbank
+
+    acct = "".join(map(chr, rec["call"]["steps"][0][2][1]["cp"]))
+    want, certain = bundesbank.accepts_concrete(rec["method"], acct)
+    if obs["outcome"] != "return":
+        return True
+    return certain and obs["value"] is not want
+
+
+def de_dispatch(bban):
+    """real library with recording stand-ins: (entered keys, outcome) of BBAN('DE', bban).validate_national_checksum()"""
+    from schwifty import checksum
+    from schwifty.bban import BBAN
+
+    real = dict(checksum.algorithms)
+    log = []
+
+    class Rec:
+        def __init__(self, key, r):
+            self.key, self.accepts, self.name = key, r.accepts, r.name
+
+        def validate(self, components, expected):
+            log.append([self.key, list(map(str, components)), str(expected)])
+            return True
+
+    try:
+        for k, v in real.items():
+            if k.startswith("DE:"):
+                checksum.algorithms[k] = Rec(k, v)
+        try:
+            out = BBAN("DE", bban).validate_national_checksum()
+            outcome = ["ret", out is True]
+        except Exception as e:  # noqa: BLE001
+            outcome = ["exc", type(e).__name__]
+    finally:
+        checksum.algorithms.clear()
+        checksum.algorithms.update(real)
+    return [log, outcome]
+
+
+def c07_dispatch(rec, obs):
+    from schwifty.checksum import algorithms
+    from spec import table
+
+    bban = "".join(map(chr, rec["call"]["steps"][0][2][0]["cp"]))
+    if obs["outcome"] != "return":
+        return True
+    log, outcome = obs["value"]
+
+    def plain(v):
+        return "".join(map(chr, v["cp"])) if isinstance(v, dict) and "cp" in v else v
+
+    log = [[plain(k), [plain(x) for x in comps], plain(e)] for k, comps, e in log]
+    outcome = [plain(outcome[0]), outcome[1]]
+    entry = None
+    for e in table.banks():
+        if e.get("country_code") == "DE" and e.get("bank_code") == bban[:8]:
+            entry = e
+            break
+    want = None
+    if entry is not None:
+        name = entry.get("checksum_algo", "default")
+        if f"DE:{name}" in algorithms:
+            want = f"DE:{name}"
+    if want is None:
+        return bool(log) or outcome != ["ret", True]
+    return not (len(log) == 1 and log[0][0] == want and log[0][1] == [bban[8:]] and log[0][2] == "" and outcome == ["ret", True])
+
+
+def c07_api(rec, obs):
+    import schwifty
+    from spec import bundesbank
+
+    s = iso13616.normalise_concrete(_text(rec))
+    try:
+        schwifty.IBAN(s)
+        plain = True
+    except Exception:  # noqa: BLE001
+        plain = False
+    want, certain = bundesbank.accepts_concrete(rec["method"], s[12:])
+    got = obs["outcome"] == "return"
+    if got and not plain:
+        return True
+    if not plain:
+        return False
+    return certain and got != want
